@@ -20,6 +20,7 @@ from concurrent.futures import ThreadPoolExecutor
 
 V = "/verif"
 OUT = os.path.join(V, "seeded", "campaign.json")
+ALLPROPS = {}
 
 OPS = [
     (r"(?<![<>=!+\-*/&|^%])<=(?!=)", ["<"]), (r"(?<![<>=!+\-*/&|^%-])<(?![<=\-])", ["<="]),
@@ -138,9 +139,17 @@ def worker(pid, files, want, seed, k, log):
             r = dict(mu, property=pid, mutated_line=newline[:160], exit=rc, caught=rc == 1 and bool(viol),
                      concrete=any("no-failing-input-found" not in x for x in viol), first_report=first[:200],
                      wall_s=round(time.time() - t0, 1))
+            if not r["caught"]:
+                # the file may be anchored by further properties: a mutant counts as caught when any of them reports it
+                for other in sorted(p2 for p2, fs in ALLPROPS.items() if p2 != pid and mu["file"] in fs):
+                    rc2, out2 = sh(["./check", other], cwd=V, env={"VERIF_REPO": wt}, timeout=1500)
+                    v2 = [x for x in out2.splitlines() if x.startswith("VIOLATION")]
+                    r.setdefault("also", {})[other] = {"caught": rc2 == 1 and bool(v2),
+                                                       "concrete": any("no-failing-input-found" not in x for x in v2)}
+                    shutil_rm(os.path.join(V, ".work", other + "-" + hashlib.sha1(wt.encode()).hexdigest()[:8]))
             res.append(r)
             log("%s %s:%d %r -> %r  %s %s" % (pid, mu["file"], mu["line"], mu["old"][:30], mu["new"][:36],
-                                                "CAUGHT" if r["caught"] else "SILENT(exit %d)" % rc,
+                                                "CAUGHT" if r["caught"] else ("CAUGHT-BY " + ",".join(k for k, v in r.get("also", {}).items() if v["caught"])) if any(v["caught"] for v in r.get("also", {}).values()) else "SILENT(exit %d)" % rc,
                                                 "" if r["concrete"] or not r["caught"] else "(no concrete input)"))
     finally:
         subprocess.run(["git", "-C", "/repo", "worktree", "remove", "--force", wt], stdout=subprocess.DEVNULL)
@@ -167,6 +176,7 @@ def main():
     for l in open(os.path.join(V, "properties.jsonl")):
         p = json.loads(l)
         props[p["id"]] = p["anchors"]["files"]
+    ALLPROPS.update(props)
     ids = a or sorted(props)
     lockf = open(OUT + ".lock", "w")
 
@@ -189,10 +199,10 @@ def main():
             json.dump(allres, open(tmp, "w"), indent=1, sort_keys=True)
             os.replace(tmp, OUT)
     tot = len(allres)
-    caught = sum(1 for r in allres.values() if r["caught"])
+    caught = sum(1 for r in allres.values() if r["caught"] or any(v["caught"] for v in r.get("also", {}).values()))
     print("survivors of the test suite: %d, caught by the checks: %d, silent: %d" % (tot, caught, tot - caught))
     for k2, r in sorted(allres.items()):
-        if not r["caught"]:
+        if not (r["caught"] or any(v["caught"] for v in r.get("also", {}).values())):
             print("  SILENT %s  %s" % (k2, r["mutated_line"][:110]))
 
 
